@@ -951,9 +951,23 @@ Section Shift.
         first [exact Ge | apply good_flat_pd_tmps; exact Gd].
   Qed.
 
+  (* the test "would chk_hybrid_dep wrap?" has the same answer in both runs: the dependencies found under the
+     renaming are the renamed dependencies (collect_deps_ren) *)
+  Lemma sim_hyb_wrapped e en : en = rleff e -> gleff e -> sim 0 (hyb_wrapped e) (hyb_wrapped en).
+  Proof.
+    intros Ee Ge. subst en. unfold hyb_wrapped. sopen. destruct Hs as (Hv & Hp & Hi).
+    destruct (collect_deps_ren (le_tmps e) Ge _ Hp) as (Ecd & _ & _).
+    split; [|split; [repeat split; assumption | split; [lia | exact I]]].
+    f_equal. f_equal. cbn [ren Ren_bool].
+    destruct (st_pending s) as [|p0 pl] eqn:Hpend; cbn [map]; [reflexivity|].
+    change (rpend p0 :: map rpend pl) with (map rpend (p0 :: pl)). cbn [le_tmps rleff]. rewrite Ecd.
+    cbn [fst]. destruct (fst (collect_deps (le_tmps e) (p0 :: pl))); reflexivity.
+  Qed.
+
   Ltac scall9 :=
     lazymatch goal with
     | |- sim _ (mk_assign _ _) _ => eapply sim_mk_assign; [req | req | gsolve | gsolve]
+    | |- sim _ (hyb_wrapped _) _ => eapply sim_hyb_wrapped; [req | gsolve]
     | |- sim _ (rm_op _) _ => eapply sim_rm_op; [req | gsolve]
     | |- sim _ (update_gcc_branch _ _ _) _ => eapply sim_update_gcc_branch; [req | req | gsolve]
     | |- sim _ (chk_hybrid_dep _ _ _) _ => eapply sim_chk_hybrid_dep; [req | gsolve]
